@@ -88,6 +88,7 @@ type runner struct {
 	sharedStore map[string]string    // replay of committed writes to shared variables, all archetypes, commit order
 	trail       []string
 	file        bool // file-recorder mode: events come from the PGO_TRACE_DIR log
+	faultMaxOps int  // > 0: failing attempts are only enumerated in systems with at most that many operations
 	stats       *runStats
 }
 
@@ -151,6 +152,9 @@ func newRunner(cs caseSpec, env *wenv, withFaulty bool, file bool, st *runStats)
 	r := &runner{cs: cs, env: env, m: initModel(cs.Sys), writers: map[string]writerRef{}, kinds: map[string]string{}, file: file, stats: st}
 	for _, rs := range cs.Sys.Res {
 		r.kinds[rs.Name] = rs.Kind
+	}
+	if file {
+		cleanTraceFiles(env) // exactly one log file per self must exist while a file-mode execution runs
 	}
 	r.sharedStore = map[string]string{}
 	for _, rs := range cs.Sys.Res {
@@ -220,12 +224,30 @@ func (r *runner) close() {
 			a.g.Kill()
 		}
 	}
-	if dir := os.Getenv("PGO_TRACE_DIR"); dir != "" {
-		for _, a := range r.actors {
-			ms, _ := filepath.Glob(filepath.Join(dir, "trace-"+strOf(a.self)+"-*.log"))
-			for _, m := range ms {
-				os.Remove(m)
-			}
+	r.env.dirty++
+	if r.file || r.env.dirty >= 64 {
+		cleanTraceFiles(r.env)
+	}
+}
+
+// cleanTraceFiles removes the log files the runtime created for this worker's contexts (every NewMPCalContext
+// creates one under PGO_TRACE_DIR).  In recorder mode they are unused, so they are swept in batches.
+func cleanTraceFiles(env *wenv) {
+	env.dirty = 0
+	dir := os.Getenv("PGO_TRACE_DIR")
+	if dir == "" {
+		return
+	}
+	ents, err := os.ReadDir(dir)
+	if err != nil {
+		return
+	}
+	suffix := fmt.Sprintf("%d-", env.w)
+	for _, e := range ents {
+		n := e.Name()
+		// trace-<a|b|c><worker>-<random>.log
+		if len(n) > 7 && strings.HasPrefix(n, "trace-") && strings.HasPrefix(n[7:], suffix) {
+			os.Remove(filepath.Join(dir, n))
 		}
 	}
 }
@@ -736,6 +758,13 @@ func (r *runner) faultsOf(a *actor, bodyOnly bool) []attemptFault {
 // run drives the whole system: at every point any enabled archetype may take its next attempt; the first
 // attempt of a section may be made to fail (one fault per execution: explore's deviation budget).
 func (r *runner) run(c chooser, bodyOnly bool) (string, *failure) {
+	totalOps := 0
+	for _, a := range r.actors {
+		for _, s := range a.secs {
+			totalOps += len(s.Ops)
+		}
+	}
+	faults := r.faultMaxOps == 0 || totalOps <= r.faultMaxOps
 	for _, a := range r.actors {
 		if st := a.g.Start(); st.Ended || st.Hung {
 			return "", r.fail("start/failed", "Run of %s ended before its first label: err=%v panic=%v", a.name, st.Err, st.Panic)
@@ -765,7 +794,7 @@ func (r *runner) run(c chooser, bodyOnly bool) (string, *failure) {
 		if a.tries > 6 {
 			panic(envProblem{"a section keeps aborting for environmental reasons (network)"})
 		}
-		if a.tries == 0 {
+		if a.tries == 0 && faults {
 			fs := r.faultsOf(a, bodyOnly)
 			if k := c.Deviate(len(fs)+1, "fault"); k > 0 {
 				r.arm(a, fs[k-1])
